@@ -13,7 +13,6 @@ import (
 
 	corev1 "k8s.io/api/core/v1"
 	clock "k8s.io/utils/clock/testing"
-	"sigs.k8s.io/controller-runtime/pkg/client"
 	"sigs.k8s.io/controller-runtime/pkg/reconcile"
 
 	"sigs.k8s.io/karpenter/pkg/controllers/node/termination/terminator"
@@ -65,7 +64,7 @@ func (h *hist) race(p *podSpec, pl plan, dnow int64, ddl *int64, anow int64) (kf
 	pods = append(pods, p)
 	h.s.install(pods)
 	obj := &corev1.Pod{}
-	if err := h.s.sw.Client.Get(h.ctx, client.ObjectKey{Namespace: "default", Name: fmt.Sprintf("p%d", p.Name)}, obj); err != nil {
+	if err := h.s.sw.Client.Get(h.ctx, p.objKey(), obj); err != nil {
 		panic(err)
 	}
 	before := h.s.snapshot()
